@@ -6,6 +6,8 @@ import CalicoVerif.Proofs.C01Prof
 import CalicoVerif.Proofs.C01Valid
 import CalicoVerif.Proofs.C01Acc
 import CalicoVerif.Proofs.C01ProfAct
+import CalicoVerif.Proofs.C01Res
+import CalicoVerif.Proofs.C01Tab
 /-!
 C01 — Felix's computed dataplane state depends only on current datastore state.
 
@@ -34,12 +36,18 @@ What is PROVED (all histories, all flush placements):
   history: OnIPSetAdded/Removed calls respect the protocol; declared policies/profiles = the RuleScanner's
   `active` table; declared IP sets = the sets referenced by it (from `rulescanner_eq_spec` carried
   through the graph);
+* `declared_endpoints_eq_resolver_spec_partial` — the RESOLVER END: C03's `resolver_eq_spec` plugged into the
+  graph.  The graph's resolver is a `C03.runL` run and the `endpointUpdate` calls are its last-emitted map,
+  so after the final flush every endpoint's declared tier list satisfies C03's `IsSpec` w.r.t. the FINAL
+  tier datastore and the resolver's policy table / match relation; the resolver never panics;
 * `calc_history_independent_partial` — the end-to-end statement `accumulate (run h) = fresh (lastState h)`,
-  derived from Theorem A and the two theorems above under the explicit, NAMED `RemainingContract`.  The contract is what the remaining node theorems must
-  discharge compositionally: policies/profiles (ARC over C07 `index_eq_eval`/`callbacks_alternate` +
-  `rulescanner_eq_spec` + C05 `view_eq_spec`), IP sets (`rulescanner_eq_spec` + C04
-  `ipset_members_eq_spec`/`members_once_and_alternate`), endpoints (C03 — whose refinement
-  `resolver_eq_spec` is itself still open in Props/C03).  It is NOT proved here; it is checked on every
+  derived from Theorem A, the theorems above and C03's `isSpec_determines_list` under the explicit, NAMED
+  `RemainingContract`.  Its fields are what remains: IP-set members (C04 `ipset_members_eq_spec` /
+  `members_once_and_alternate`), "ARC bookkeeping = datastore" for active policies / profiles and for the
+  resolver's match relation (its endpoint and policy tables are PROVED to be the datastore's:
+  `resolver_tables_eq_datastore_partial`), the well-formedness facts needed (distinct tie-break strings,
+  in-sync seen, consistent numbering), and the purely specification-level fact that `fresh`'s
+  per-endpoint list satisfies `IsSpec`.  The contract is NOT proved here; it is checked on every
   generated history by the driver (the model's accumulated state is compared with `fresh` of the
   datastore at every `check` line, and with the REAL graph after every flush).
 -/
@@ -139,8 +147,54 @@ structure RemainingContract (H : IdFn) (s : Bool) (h : List HStep) : Prop where
       mget (fresh H s (lastState h)).profs p
   /-- (b) C04 `ipset_members_eq_spec` (+ the domain, proved above, + injectivity of `showMember`) -/
   ipsets : (decl (run H (Graph.new s) (h ++ [.flush])).1).ipsets = (fresh H s (lastState h)).toDP.ipsets
-  /-- (c) C03 `resolver_eq_spec` (open in Props/C03): per-endpoint tier lists -/
-  endpoints : (decl (run H (Graph.new s) (h ++ [.flush])).1).ep = (fresh H s (lastState h)).toDP.ep
+  /-- (c) ENDPOINTS — C03's `resolver_eq_spec` / `isSpec_determines_list` are plugged in
+  (`declared_endpoints_eq_resolver_spec_partial`, `endpoints_of`); what is left of it:
+  the policy names in play have pairwise different `name/namespace/kind` strings (C03's `KeyU`; true of
+  validated Calico names, which contain no '/') … -/
+  keyU : C03.KeyU (histKeys h)
+  /-- … the history contains the in-sync signal (the resolver emits nothing before it) … -/
+  sawInSync : HStep.inSync ∈ h
+  /-- … the harness's endpoint / policy numbers are consistent (number ↦ real key injective, locality a
+  function of the number) — then the resolver's endpoint and policy tables ARE the datastore's
+  (`resolver_tables_eq_datastore_partial`, proved) … -/
+  numbered : ∃ N : Numbering, ∀ st ∈ h, N.stepOk st
+  /-- … the resolver's match relation is the specification's (ARC → datastore, as for `activePols`) … -/
+  resMatched : ∀ p e, (p, e) ∈ (run H (Graph.new s) (h ++ [.flush])).1.res.matched ↔ (p, e) ∈ (lastState h).matched
+  /-- … and (a statement about the SPECIFICATION only, no graph) the per-endpoint list `fresh` writes down
+  satisfies C03's `IsSpec` for the datastore state. -/
+  freshIsSpec : ∀ e, (mget (lastState h).localEps e).isSome = true →
+      C03.IsSpec (lastState h).tiers (lastState h).polMetas (lastState h).matched e
+        (C03.filterTiers (lastState h).matched e (lastState h).sortedTiers)
+
+/-- RESOLVER TABLES = DATASTORE (all consistently numbered histories, any flush placement): after the
+final flush the PolicyResolver's endpoint table is exactly the datastore's LOCAL endpoints and its
+`allPolicies` table is exactly `ExtractPolicyMetadata` of the datastore's policies. -/
+theorem resolver_tables_eq_datastore_partial (H : IdFn) (s : Bool) (h : List HStep) (N : Numbering)
+    (hN : ∀ st ∈ h, N.stepOk st) :
+    (∀ e, mget (run H (Graph.new s) (h ++ [.flush])).1.res.endpoints e =
+      (mget (lastState h).localEps e).map (fun v => (⟨v.tag, v.profiles⟩ : EpData))) ∧
+    (∀ k, mget (run H (Graph.new s) (h ++ [.flush])).1.res.allPolicies k = mget (lastState h).polMetas k) :=
+  resolver_tables_eq_datastore H s h N hN
+
+/-- RESOLVER END (C03 plugged into the composed graph; all histories over policy keys `K` with pairwise
+different tie-break strings, any flush placement, containing the in-sync signal): after the final flush
+ * the PolicyResolver's flush did not hit its `Sorted()` panic, and
+ * the declared endpoint state is, for each endpoint in the resolver's table, the update `⟨data, l⟩`
+   whose tier list `l` satisfies C03's `IsSpec` for the FINAL tier datastore, the resolver's policy
+   table and its match relation (so `l` is determined by those: `C03.isSpec_determines_list`); an
+   endpoint not in the resolver's table is absent from the declared state.
+Proof: the graph's resolver is a `C03.runL` run on some resolver history and the `endpointUpdate` calls
+in the call log are that run's last-emitted map (`RInv`, carried through every graph function), then
+`C03.resolver_eq_spec`. -/
+theorem declared_endpoints_eq_resolver_spec_partial (H : IdFn) (s : Bool) (h : List HStep) (K : PolicyKey → Prop)
+    (hK : C03.KeyU K) (hd : K default) (hin : ∀ st ∈ h, StepIn K st) (hs : HStep.inSync ∈ h) (e : EpKey) :
+    ((run H (Graph.new s) h).1.res.flush).isSome = true ∧
+    match mget (run H (Graph.new s) (h ++ [.flush])).1.res.endpoints e with
+    | none => (decl (run H (Graph.new s) (h ++ [.flush])).1).ep e = none
+    | some ep => ∃ l, (decl (run H (Graph.new s) (h ++ [.flush])).1).ep e = some (epDown e ⟨ep, l⟩) ∧
+        C03.IsSpec (lastState h).tiers (run H (Graph.new s) (h ++ [.flush])).1.res.allPolicies
+          (run H (Graph.new s) (h ++ [.flush])).1.res.matched e l :=
+  declared_endpoints_isSpec H s h K hK hd hin hs e
 
 /-- END-TO-END (partial: modelled nodes only, and under the named `RemainingContract`): for every
 history `h` of datastore updates (duplicates, reverts, spurious deletes, invalid values = deletes) with
@@ -161,7 +215,12 @@ theorem calc_history_independent_partial (H : IdFn) (s : Bool) (h : List HStep)
   have hprof : (decl (run H (Graph.new s) (h ++ [.flush])).1).prof = (fresh H s (lastState h)).toDP.prof := by
     funext p; rw [hd.2.1 p, hc.activeProfs p]; rfl
   have ho := others_untouched _ ({} : DP) (ipset_add_remove_valid_partial H s (h ++ [.flush]))
-  exact DP.ext' hc.ipsets hpol hprof hc.endpoints ho.1 ho.2.1 ho.2.2
+  have hep : (decl (run H (Graph.new s) (h ++ [.flush])).1).ep = (fresh H s (lastState h)).toDP.ep := by
+    funext e
+    obtain ⟨N, hN⟩ := hc.numbered
+    have ht := resolver_tables_eq_datastore_partial H s h N hN
+    exact endpoints_of H s h hc.keyU hc.sawInSync ht.1 ht.2 hc.resMatched hc.freshIsSpec e
+  exact DP.ext' hc.ipsets hpol hprof hep ho.1 ho.2.1 ho.2.2
 
 /-- RULE SCANNER node theorem (all histories of OnPolicyActive/Inactive, OnProfileActive/Inactive):
 `key` references exactly the IP sets of its latest rules; the OnIPSetActive / OnIPSetInactive events are a
